@@ -32,6 +32,7 @@ LINE_KINDS: Dict[str, str] = {
     "comment": "# a comment",
     "indented-code": "    y = g()",
     "blank": "",
+    "formfeed": "\x0c",  # a form feed is white space for the parser, not the end of a line
 }
 
 
@@ -94,6 +95,11 @@ def _wrap(m: Optional["re.Match[str]"]) -> Any:
     return Obj("Match", group=lambda *a: m.group(*a), groups=lambda: m.groups(), start=lambda *a: m.start(*a), end=lambda *a: m.end(*a))
 
 
+def norm_call(call: ast.Call) -> str:
+    f = call.func
+    return f"{f.value.id}.{f.attr}" if isinstance(f, ast.Attribute) and isinstance(f.value, ast.Name) else getattr(f, "id", "")
+
+
 # ----------------------------------------------------------------- extraction
 class FilterModel:
     def __init__(self, prog: Program) -> None:
@@ -107,6 +113,20 @@ class FilterModel:
             ("Visitor", "get_unused_ignores"): f("BaseNodeVisitor.get_unused_ignores"),
             ("Visitor", "get_description_for_error_code"): f("BaseNodeVisitor.get_description_for_error_code"),
         }
+        # helpers of the module that _lines uses (a line splitter and its pattern), whatever they are called
+        self.module_defs: Dict[str, Any] = {}
+        self.module_consts: Dict[str, Any] = {}
+        nv = prog.module("node_visitor")
+        called = {x.func.id for x in ast.walk(self.method_defs[("Visitor", "_lines")]) if isinstance(x, ast.Call) and isinstance(x.func, ast.Name)}
+        for st in nv.tree.body:
+            if isinstance(st, ast.FunctionDef) and st.name in called:
+                self.module_defs[st.name] = st
+        wanted = {x.id for fn in self.module_defs.values() for x in ast.walk(fn) if isinstance(x, ast.Name)}
+        for st in nv.tree.body:
+            if isinstance(st, ast.Assign) and len(st.targets) == 1 and isinstance(st.targets[0], ast.Name) and st.targets[0].id in wanted:
+                v = st.value
+                if isinstance(v, ast.Call) and norm_call(v) == "re.compile" and v.args and all(isinstance(a, ast.Constant) for a in v.args):
+                    self.module_consts[st.targets[0].id] = re.compile(*[a.value for a in v.args])  # type: ignore[attr-defined]
         ic = prog.module_assign("node_visitor", "IGNORE_COMMENT")
         if not (isinstance(ic, ast.Constant) and ic.value == IC):
             raise AnchorError("node_visitor.IGNORE_COMMENT is not the documented comment")
@@ -155,7 +175,8 @@ class FilterModel:
             "Replacement": lambda args: Obj("Replacement", linenos_to_delete=args[0], lines_to_add=args[1] if len(args) > 1 else None, error_str=args[2] if len(args) > 2 else None),
             "VisitorError": lambda args: Obj("VisitorError"),
         }
-        it = Interp({}, {}, (), funcs, None, self.method_defs, {}, globals_)
+        globals_.update(self.module_consts)
+        it = Interp({}, {}, (), funcs, None, self.method_defs, self.module_defs, globals_)
         interp_holder.append(it)
         reported: List[Tuple[int, str]] = []
         try:
